@@ -16,6 +16,10 @@ def jobs(tier):
             functions=fns + [fn_id(TY.Time.__init__)], stubs=st, site="Time")
         for mk in ([7, 31, 24, 8, 32, 64, 6, 0, 127] if tier == "quick" else range(128))
     ] + [
+        Job("C18.ROUNDTRIP", H, "ob_roundtrip", timeout=3600, path_timeout=120,
+            bounds="Time: every presence mask (128) x low / high / mid values of every field (incl. minute 59, year 1 and 9999, longest part-of-day name); Interval: those x 5 masks for the other end, open ends; "
+                   "Duration: 3 amounts x 6 units: from_str(str(x)) == x, parse_nb_string(nb_str(x)) == x",
+            functions=[fn_id(TY.Time.from_str), fn_id(TY.Time.__str__), fn_id(TY.Interval.from_str), fn_id(TY.Duration.from_str)], stubs=["code untraced; masks and value variants symbolic (solver covers every combination)"], site="from_str"),
         Job("C18.EQ+HASH[Duration]", H, "ob_eq_duration", timeout=300, bounds="two Durations: amount 0..10^4, 6 units, spans symbolic",
             functions=fns + [fn_id(TY.Duration.__init__)], stubs=st, lift="lift_eq_duration", site="Duration"),
         Job("C18.EQ+HASH[Interval]", H, "ob_eq_interval", timeout=900, bounds="two Intervals: each end None | clock | date | date+clock with symbolic hour/minute/year, spans symbolic (incl. inner spans)",
@@ -31,4 +35,4 @@ def run(tier, t0, only=None):
         assumptions=["the built-in hash maps equal tuples to equal values (the stand-in keeps exactly that)"],
         explanation="EQ: for two symbolic artifacts of each kind a == b iff same kind and equal value fields, for arbitrary spans; HASH: equal values have equal hashes "
                     "(real __hash__ run with an injective stand-in for the built-in). Printed-form injectivity / round trip: E2 obligations (STR).",
-        outside=["STR-INJ / ROUNDTRIP until the E2 obligations are added", "year outside 0..9999"])
+        outside=["field values other than the low/high/mid variants in ROUNDTRIP (equality/hash: full ranges)", "year outside 1..9999"])
